@@ -25,7 +25,7 @@ PROP = dict(
 _SRC_K13 = ['props/C08/keyed13.cc', 'harness/puppet13.cc', 'harness/wraps.c', 'harness/shim.c']
 PROP['targets'] += [
     dict(name='c08_tls13_keyed', src=_SRC_K13, libs=['-lcrypto'], wraps=WRAPS, env={'VERIF_DIR': '/verif'}, hang_is_violation=True,
-         quick=dict(cases=3200, secs=25), thorough=dict(cases=250000, secs=420)),
+         quick=dict(cases=2800, secs=25), thorough=dict(cases=250000, secs=420)),
 ]
 PROP['level_note'] = PROP['level_note'].replace('(a keyed mutating peer is not built)', '(except TLS 1.3, where c08_tls13_keyed is a keyed mutating peer)')
 PROP['rule'] += (' || c08_tls13_keyed: input = (victim role, RSA/ECDSA, client-auth, group, client session-id object, 0-2 target messages, grammar-aware body with generated fields and 1-2 inconsistent length prefixes, '
